@@ -515,6 +515,9 @@ impl Harness for C05 {
         let jobs = {
             let mut j: Vec<Job> = jobs;
             j.insert(0, Job::new("builders", json!({"kind": "builders"})));
+            for i in 0..mc_sc::entry::n_parts("C05") {
+                j.insert(1 + i, Job::new(format!("entry-{}", i), json!({"kind": "entry", "part": i})));
+            }
             j
         };
         Plan {
@@ -525,6 +528,7 @@ impl Harness for C05 {
             // short by the wall budget on a busy machine still passes, and a vacuous one does not
             floors: vec![
                 ("builder_chains", 5),
+                ("entry_cases", 1000),
                 ("root_split", 1_000_000),
                 ("trees_2plus_levels", 150_000),
                 ("trees_4plus_levels", 5_000),
@@ -544,6 +548,7 @@ impl Harness for C05 {
             ],
             bounds: json!({
                 "builders": mc_sc::builders::BOUNDS,
+                "entry_paths": mc_sc::entry::BOUNDS,
                 "seed_variant": seed % 8,
                 "lattice_p1": format!("every x in A^n, y in B^n (|A|=|B|=3; classification: >= 2 classes, label maps {:?}), n = 2..{}", data::LABEL_MAPS, if t { 7 } else { 5 }),
                 "lattice_p2": format!("every x in A^(2n), y in B^n, n = 2..{}", if t { 4 } else { 3 }),
@@ -560,6 +565,9 @@ impl Harness for C05 {
     }
 
     fn run(&self, job: &Job) {
+        if job.kind() == "entry" {
+            return mc_sc::entry::run_part("C05", job.u("part"));
+        }
         let seed = job.params.get("seed").and_then(|v| v.as_u64()).unwrap_or(0);
         match job.kind() {
             "lat" => run_lattice(job, seed),
